@@ -27,7 +27,7 @@ type dim struct {
 }
 
 var dims = []dim{
-	{"access", 4, 1},   // 0 BAC only, 1 PACE-GM + BAC, 2 PACE-GM only, 3 PACE-CAM
+	{"access", 5, 1},   // 0 BAC only, 1 PACE-GM + BAC, 2 PACE-GM only, 3 PACE-CAM, 4 two PACE protocols on different parameter ids (CAM first, GM-3DES@12 second)
 	{"password", 2, 0}, // 0 MRZ, 1 CAN
 	{"curve", 11, 5},   // parameter id 8+v
 	{"suite", 4, 1},    // cipher 1+v
@@ -61,7 +61,7 @@ func valid(v vec) bool {
 	if v[1] == 1 && v[0] == 0 {
 		return false // CAN cannot open a BAC-only chip
 	}
-	if v[0] == 3 && v[3] == 0 {
+	if (v[0] == 3 || v[0] == 4) && v[3] == 0 {
 		return false // CAM has no 3DES suite
 	}
 	return true
@@ -115,6 +115,12 @@ func build(v vec) built {
 		cfg.PACE = []refchip.PACEProto{{Mapping: 2, Cipher: cipher, ParamID: pid}}
 	case 3:
 		cfg.PACE = []refchip.PACEProto{{Mapping: 6, Cipher: cipher, ParamID: pid}}
+	case 4:
+		second := refchip.PACEProto{Mapping: 2, Cipher: 1, ParamID: 12}
+		if pid == 12 {
+			second.ParamID = 13
+		}
+		cfg.PACE = []refchip.PACEProto{{Mapping: 6, Cipher: cipher, ParamID: pid}, second}
 	}
 	for i, d := range dgPool {
 		if v[4]&(1<<i) != 0 {
@@ -292,7 +298,7 @@ func judge(b built) result {
 			res.Key, res.What = "aa-not-successful", fmt.Sprintf("chip supports AA (type %d) but it is not reported successful: %v", v[6], s.ActiveAuthErr)
 			return res
 		}
-	case v[0] == 3:
+	case v[0] == 3 || v[0] == 4:
 		if !cam {
 			res.Key, res.What = "cam-not-successful", fmt.Sprintf("chip ran PACE-CAM but it is not reported successful: %v", s.PaceErr)
 			return res
@@ -401,7 +407,7 @@ s4:
 	if c.Thorough() {
 		sec4 := "complete slice {access x curve x suite x password}"
 		c.SecBound(sec4, "4 x 11 x 4 x 2")
-		for a := 0; a < 4; a++ {
+		for a := 0; a < 5; a++ {
 			for cu := 0; cu < 11; cu++ {
 				for su := 0; su < 4; su++ {
 					for pw := 0; pw < 2; pw++ {
@@ -458,7 +464,7 @@ s4:
 }
 
 func describe(v vec) string {
-	acc := []string{"BAC only", "PACE-GM+BAC", "PACE-GM only", "PACE-CAM"}[v[0]]
+	acc := []string{"BAC only", "PACE-GM+BAC", "PACE-GM only", "PACE-CAM", "PACE-CAM + GM-3DES on another parameter id"}[v[0]]
 	var dgs []int
 	for i, d := range dgPool {
 		if v[4]&(1<<i) != 0 {
